@@ -801,7 +801,7 @@ func runC16(c *fw.Ctx) {
 	})
 
 	// ---- grammar-generated inputs and their mutations
-	n := c.Pick(50000, 2000000)
+	n := c.Pick(50000, 10000000)
 	c.Cases(n, func(i int) string {
 		return fmt.Sprintf("%s|i=%d", c16Kind(i), i)
 	}, func(i int, k *fw.K) {
